@@ -50,6 +50,9 @@ type setDesc struct {
 	Idx     []int        `json:"idx"`   // line: strip; tri: triples; box: pairs of corner vertices; point: unused
 	Depth   int          `json:"depth"` // -1: automatic (Mesh.OctTree / trees.NewOctree)
 	Queries []qDesc      `json:"queries"`
+	// mesh kinds: build the tree with Mesh.OctTreeWithAttributeAndDepth(Attr, depth) on a mesh whose Attr
+	// values are Verts and whose POSITION values are different (shifted and mirrored) coordinates
+	Attr string `json:"attr,omitempty"`
 }
 
 type bvhDesc struct {
@@ -62,6 +65,20 @@ type bvhDesc struct {
 	Seed  int64        `json:"seed"` // math/rand seed: NewBVHTree picks its split axis from the global source
 	Via   string       `json:"via,omitempty"`
 	NZ    []int        `json:"negzero,omitempty"`
+	// spheres (leaf ids follow the triangles'), built through NewBVHTree by the harness itself
+	Spheres []sphDesc `json:"spheres,omitempty"`
+	T0      float64   `json:"t0,omitempty"`   // time window handed to NewBVHTree / BoundingBox
+	T1      float64   `json:"t1,omitempty"`
+	Time    float64   `json:"time,omitempty"` // the ray's time (T0 <= Time <= T1)
+	Pad     [2]int    `json:"pad,omitempty"`  // objects in the slice before / after the range [start, end)
+	Direct  bool      `json:"direct,omitempty"`
+	RawBox  bool      `json:"rawbox,omitempty"` // spheres report rendering.Sphere.BoundingBox itself
+}
+
+type sphDesc struct {
+	C0 [3]float64 `json:"c0"` // centre at T0
+	C1 [3]float64 `json:"c1"` // centre at T1 (linear in between; == C0: static, NewSphere)
+	R  float64    `json:"r"`
 }
 
 func v3(a [3]float64) vector3.Float64 { return vector3.New(a[0], a[1], a[2]) }
@@ -139,16 +156,52 @@ func buildSet(d setDesc) (els []trees.Element, tree *trees.OctTree) {
 	default:
 		panic("c16 harness: unknown kind " + d.Kind)
 	}
+	atr := modeling.PositionAttribute
+	if d.Attr != "" {
+		// the tree is built on another attribute; the positions are decoys
+		atr = d.Attr
+		decoy := make([]vector3.Float64, len(pos))
+		for i, v := range pos {
+			decoy[i] = vector3.New(7-v.Z(), v.X()-3, 5-v.Y())
+		}
+		m = m.SetFloat3Attribute(atr, pos).SetFloat3Attribute(modeling.PositionAttribute, decoy)
+	}
 	n := m.PrimitiveCount()
 	if n < 0 {
 		n = 0
 	}
 	els = make([]trees.Element, n)
-	m.ScanPrimitives(func(i int, p modeling.Primitive) { els[i] = p.Scope(modeling.PositionAttribute) })
+	m.ScanPrimitives(func(i int, p modeling.Primitive) { els[i] = p.Scope(atr) })
+	if d.Attr != "" {
+		depth := d.Depth
+		if depth < 0 {
+			depth = trees.OctreeDepthFromCount(m.PrimitiveCount())
+		}
+		return els, m.OctTreeWithAttributeAndDepth(atr, depth)
+	}
 	if d.Depth < 0 {
 		return els, m.OctTree()
 	}
 	return els, m.OctTreeDepth(d.Depth)
+}
+
+// meshCoq renders the mesh the element set comes from (QMesh of Check/C16.v): Coq computes every
+// primitive's box from the vertices and indices itself.
+func meshCoq(d setDesc) (string, bool) {
+	kind := map[string]int{"point": 0, "line": 1, "tri": 2}
+	k, ok := kind[d.Kind]
+	if !ok {
+		return "", false
+	}
+	vs := make([]string, len(d.Verts))
+	for i, v := range d.Verts {
+		vs[i] = ptCoq(v3(v))
+	}
+	idx := d.Idx
+	if d.Kind == "point" {
+		idx = nil
+	}
+	return fmt.Sprintf("QMesh %d%%nat [%s] %s", k, strings.Join(vs, ";"), natList(idx)), true
 }
 
 func copyInts(x []int) []int { return append([]int{}, x...) }
@@ -195,6 +248,11 @@ func octCase(d setDesc) (c hx.Case, st octStats) {
 		treeCoq = "(Some " + b.String() + ")"
 	}
 	var qs []string
+	if mq, ok := meshCoq(d); ok {
+		// element i = mesh primitive i with that primitive's box (also for the empty mesh: no elements)
+		qs = append(qs, mq)
+	}
+	nq0 := len(qs)
 	if tree != nil {
 		for _, q := range d.Queries {
 			p := v3(q.P)
@@ -315,12 +373,58 @@ func octCase(d setDesc) (c hx.Case, st octStats) {
 		}
 	}
 	c.Coq = fmt.Sprintf("COct [%s] %s %s\n  [%s]", strings.Join(bs, ";"), depth, treeCoq, strings.Join(qs, ";\n   "))
-	c.Nontriv = n >= 2 && len(qs) > 0
+	c.Nontriv = n >= 2 && len(qs) > nq0
 	return c, st
 }
 
 // ---------------------------------------------------------------------------------------------
 // running one BVH case
+
+// boxedSphere: a rendering.Sphere as a BVH member whose BoundingBox is the box of the sphere it wraps:
+// centre +- radius at both ends of the time window (Sphere.BoundingBox itself is only half as wide,
+// see notes/C16.md: that finding has its own stream behind -rawsphere).
+type boxedSphere struct {
+	s  *rendering.Sphere
+	at func(t float64) vector3.Float64
+	r  float64
+	id int
+}
+
+func (b boxedSphere) Hit(r *rendering.TemporalRay, min, max float64, rec *rendering.HitRecord) bool {
+	return b.s.Hit(r, min, max, rec)
+}
+
+func (b boxedSphere) BoundingBox(start, end float64) *geometry.AABB {
+	rr := vector3.Fill(b.r)
+	cs, ce := b.at(start), b.at(end)
+	box := geometry.NewAABBFromPoints(cs.Sub(rr), cs.Add(rr), ce.Sub(rr), ce.Add(rr))
+	return &box
+}
+
+var rawSphereID = map[*rendering.Sphere]int{}
+
+func (d bvhDesc) sphere(k, id int) rendering.Hittable {
+	sd := d.Spheres[k]
+	c0, c1 := v3(sd.C0), v3(sd.C1)
+	t0, t1 := d.T0, d.T1
+	at := func(t float64) vector3.Float64 {
+		if t1 == t0 || c0 == c1 {
+			return c0
+		}
+		return c0.Add(c1.Sub(c0).Scale((t - t0) / (t1 - t0)))
+	}
+	var s *rendering.Sphere
+	if c0 == c1 {
+		s = rendering.NewSphere(c0, sd.R, nil)
+	} else {
+		s = rendering.NewAnimatedSphere(sd.R, nil, at)
+	}
+	if d.RawBox {
+		rawSphereID[s] = id
+		return s
+	}
+	return boxedSphere{s: s, at: at, r: sd.R, id: id}
+}
 
 func bvhCase(d bvhDesc) (c hx.Case) {
 	canonNZ(&d.Dir, &d.NZ)
@@ -343,6 +447,8 @@ func bvhCase(d bvhDesc) (c hx.Case) {
 		}
 	}()
 	nt := len(d.Idx) / 3
+	ns := len(d.Spheres)
+	n := nt + ns
 	pos := vecs(d.Verts)
 	// unwelded copy; the normals carry the triangle number (Hit does not use them)
 	var p, nrm []vector3.Float64
@@ -357,33 +463,92 @@ func bvhCase(d bvhDesc) (c hx.Case) {
 	m := modeling.NewTriangleMesh(idx).
 		SetFloat3Attribute(modeling.PositionAttribute, p).
 		SetFloat3Attribute(modeling.NormalAttribute, nrm)
-	rand.Seed(d.Seed)
-	bvh := rendering.NewBVHFromMesh(m, nil)
-	var sb strings.Builder
+	direct := ns > 0 || d.Pad[0] > 0 || d.Pad[1] > 0 || d.Direct
+	var bvh *rendering.BVHNode
 	leaves := map[int]rendering.Hittable{}
 	nodes := 0
-	dumpBVH(bvh, &sb, leaves, &nodes)
-	if len(leaves) != nt {
-		c.GoFail = fmt.Sprintf("BVH holds %d distinct triangles, mesh has %d", len(leaves), nt)
-		c.FailKey = "bvh:lost-leaf"
+	var sb strings.Builder
+	if !direct {
+		rand.Seed(d.Seed)
+		bvh = rendering.NewBVHFromMesh(m, nil)
+	} else {
+		// NewBVHTree called on a caller-owned slice: [pad..., triangles and spheres (shuffled)..., pad...],
+		// range [start, end), time window [T0, T1]
+		var members []rendering.Hittable
+		if nt > 0 {
+			tl := map[int]rendering.Hittable{}
+			var tmp strings.Builder
+			k := 0
+			dumpBVH(rendering.NewBVHFromMesh(m, nil), &tmp, tl, &k)
+			for t := 0; t < nt; t++ {
+				if tl[t] == nil {
+					panic(fmt.Sprintf("NewBVHFromMesh lost triangle %d", t))
+				}
+				members = append(members, tl[t])
+			}
+		}
+		for k := 0; k < ns; k++ {
+			members = append(members, d.sphere(k, nt+k))
+		}
+		sh := hx.NewRng(uint64(d.Seed) + 77)
+		perm := sh.Perm(len(members))
+		var objs []rendering.Hittable
+		padSphere := func(j int) rendering.Hittable {
+			pd := bvhDesc{Spheres: []sphDesc{{C0: [3]float64{500 + 10*float64(j), 500, 500}, C1: [3]float64{500 + 10*float64(j), 500, 500}, R: 1}}}
+			return pd.sphere(0, n+j)
+		}
+		for j := 0; j < d.Pad[0]; j++ {
+			objs = append(objs, padSphere(j))
+		}
+		for _, k := range perm {
+			objs = append(objs, members[k])
+		}
+		for j := 0; j < d.Pad[1]; j++ {
+			objs = append(objs, padSphere(d.Pad[0]+j))
+		}
+		rand.Seed(d.Seed)
+		bvh = rendering.NewBVHTree(objs, d.Pad[0], d.Pad[0]+n, d.T0, d.T1)
 	}
-	list := make(rendering.HitList, 0, nt)
-	lb := make([]string, nt)
-	tvs := make([]string, nt)
-	dists := make([]string, nt)
-	tr := rendering.NewTemporalRay(v3(d.O), dirVia(d.Dir, d.NZ, d.Via), 0)
-	for t := 0; t < nt; t++ {
+	dumpBVH(bvh, &sb, leaves, &nodes)
+	for id := range leaves {
+		if id >= n {
+			c.GoFail = fmt.Sprintf("BVH holds object %d from outside the range [start, end) it was built on", id)
+			c.FailKey = "bvh:lost-leaf"
+		}
+	}
+	for id := 0; id < n; id++ {
+		if leaves[id] == nil && c.GoFail == "" {
+			c.GoFail = fmt.Sprintf("BVH lost object %d of %d", id, n)
+			c.FailKey = "bvh:lost-leaf"
+		}
+	}
+	list := make(rendering.HitList, 0, n)
+	lb := make([]string, n)
+	tvs := make([]string, n)
+	dists := make([]string, n)
+	tr := rendering.NewTemporalRay(v3(d.O), dirVia(d.Dir, d.NZ, d.Via), d.Time)
+	best, any := 0.0, false
+	for t := 0; t < n; t++ {
 		h := leaves[t]
 		if h == nil {
 			lb[t], tvs[t], dists[t] = "zero_box", "None", "(0%Z,0%N)"
 			continue
 		}
 		list = append(list, h)
-		lb[t] = boxCoq(*h.BoundingBox(0, 0))
+		lb[t] = boxCoq(*h.BoundingBox(d.T0, d.T1))
 		rec := rendering.NewHitRecord()
 		if h.Hit(&tr, d.Lo, math.MaxFloat64, rec) {
-			tvs[t] = "(Some " + dyCoq(rec.Distance) + ")" // Lo = 0 in this stream: tVal = Distance
+			if rec.Distance == d.Lo {
+				// a hit exactly at the lower bound (origin on a sphere): the open range (lo, t) is empty,
+				// the statement "the hit lies in the box within the range" has no content; not generated
+				c.Kind = "skip"
+				return c
+			}
+			tvs[t] = "(Some " + dyCoq(rec.Distance) + ")" // absolute parameter: tVal + min = Distance
 			dists[t] = dyCoq(rec.Distance)
+			if rec.Distance <= d.Hi && (!any || rec.Distance < best) {
+				best, any = rec.Distance, true
+			}
 		} else {
 			tvs[t], dists[t] = "None", "(0%Z,0%N)"
 		}
@@ -397,28 +562,33 @@ func bvhCase(d bvhDesc) (c hx.Case) {
 	}
 	impl := res(bvh)
 	lst := res(list)
-	if d.Lo != 0 {
-		// nearest admissible hit by exhaustive scan (absolute parameters)
-		best, any := 0.0, false
-		for t := 0; t < nt; t++ {
-			rec := rendering.NewHitRecord()
-			if h := leaves[t]; h != nil && h.Hit(&tr, d.Lo, math.MaxFloat64, rec) && rec.Distance <= d.Hi {
-				if !any || rec.Distance < best {
-					best, any = rec.Distance, true
-				}
-			}
+	// the other nearest-hit searches over the same objects
+	var extra []string
+	if len(list) == n && n > 0 {
+		extra = append(extra, res(rendering.NewBVH(list, d.T0, d.T1)))
+		if !direct {
+			extra = append(extra, res(rendering.NewMesh(m, nil)))
 		}
-		want := "None"
-		if any {
-			want = "(Some " + dyCoq(best) + ")"
-		}
-		if impl != want || lst != want {
+	}
+	want := "None"
+	if any {
+		want = "(Some " + dyCoq(best) + ")"
+	}
+	agree := impl == want && lst == want
+	for _, e := range extra {
+		agree = agree && e == want
+	}
+	if !agree {
+		if d.RawBox {
+			c.FailKey = "bvh:sphere-box-half-size"
+		} else if d.Lo != 0 {
 			c.FailKey = "bvh:hit-max-measured-from-min"
 		}
 	}
-	c.Coq = fmt.Sprintf("CBvh [%s] [%s] [%s]\n  %s\n  %s %s %s %s %s %s", strings.Join(lb, ";"), strings.Join(tvs, ";"),
-		strings.Join(dists, ";"), sb.String(), ptCoq(v3(d.O)), dvecCoq(tr.Ray().Direction()), dyCoq(d.Lo), dyCoq(d.Hi), impl, lst)
-	c.Nontriv = nt >= 2
+	c.Coq = fmt.Sprintf("CBvh [%s] [%s] [%s]\n  %s\n  %s %s %s %s %s %s [%s]", strings.Join(lb, ";"), strings.Join(tvs, ";"),
+		strings.Join(dists, ";"), sb.String(), ptCoq(v3(d.O)), dvecCoq(tr.Ray().Direction()), dyCoq(d.Lo), dyCoq(d.Hi), impl, lst,
+		strings.Join(extra, ";"))
+	c.Nontriv = n >= 2
 	return c
 }
 
@@ -430,6 +600,11 @@ func main() {
 	// BVHNode.Hit / HitList.Hit are no nearest-hit searches (fixes/c16-tri-hit-max-offset); the cases on
 	// which that shows carry FailKey bvh:hit-max-measured-from-min.
 	bvhMin := flag.Bool("bvhmin", false, "generate BVH rays with a non-zero lower bound")
+	// -rawsphere: also generate BVHs whose spheres report rendering.Sphere.BoundingBox itself.  Off by default:
+	// that box is only half as wide as the sphere (NewAABB takes a size, it is given the radius), so a BVH
+	// over spheres misses hits the exhaustive scan finds (fixes/c16-sphere-bounding-box); the cases on which
+	// that shows carry FailKey bvh:sphere-box-half-size.
+	rawSphere := flag.Bool("rawsphere", false, "generate BVHs over spheres with rendering.Sphere's own bounding box")
 	run := hx.ParseFlags("C16", "Check.C16")
 	if run.Tier == "thorough" {
 		run.ShardMax = 48 // smaller shards: the big sets make a shard's coqc process heavy
@@ -449,6 +624,17 @@ func main() {
 		} else {
 			run.Count(fmt.Sprintf("oct:maxdepth=%d", d.Depth))
 		}
+		if d.Attr != "" {
+			run.Count("oct:tree-on-non-position-attribute")
+		}
+		if d.Kind == "tri" {
+			for t := 0; 3*t+2 < len(d.Idx); t++ {
+				if d.Idx[3*t] == d.Idx[3*t+1] || d.Idx[3*t] == d.Idx[3*t+2] || d.Idx[3*t+1] == d.Idx[3*t+2] {
+					run.Count("oct:tri-set-with-vertex-named-twice")
+					break
+				}
+			}
+		}
 		for _, q := range d.Queries {
 			run.Count("query:" + q.T)
 			if q.T == "ray" || q.T == "trav" {
@@ -456,12 +642,41 @@ func main() {
 			}
 		}
 	}
+	addBvh := func(d bvhDesc) {
+		c := bvhCase(d)
+		if c.Kind == "skip" {
+			run.Count("bvh:skipped-hit-exactly-at-lower-bound")
+			return
+		}
+		run.Count(fmt.Sprintf("bvh:objects<=%d", bucket(len(d.Idx)/3+len(d.Spheres))))
+		switch {
+		case len(d.Spheres) == 0:
+			run.Count("bvh:members=triangles")
+		case len(d.Idx) == 0:
+			run.Count("bvh:members=spheres")
+		default:
+			run.Count("bvh:members=mixed")
+		}
+		if d.T1 != d.T0 {
+			run.Count("bvh:time-window")
+		}
+		if d.Pad[0] > 0 || d.Pad[1] > 0 {
+			run.Count("bvh:sub-range-of-slice")
+		}
+		if d.Lo != 0 {
+			run.Count("bvh:min!=0")
+		}
+		if d.RawBox {
+			run.Count("bvh:raw-sphere-box")
+		}
+		run.Add(c)
+	}
 	for _, in := range run.Inputs() {
 		switch {
 		case in.Kind == "bvh":
 			var d bvhDesc
 			json.Unmarshal(in.Raw, &d)
-			run.Add(bvhCase(d))
+			addBvh(d)
 		case strings.HasPrefix(in.Kind, "oct-"):
 			var d setDesc
 			json.Unmarshal(in.Raw, &d)
@@ -476,13 +691,19 @@ func main() {
 		addOct(d)
 	}
 	for _, d := range fixedBvh() {
-		run.Add(bvhCase(d))
+		addBvh(d)
+	}
+	if *rawSphere { // the reproducer of fixes/c16-sphere-bounding-box
+		for seed := int64(1); seed <= 2; seed++ {
+			addBvh(bvhDesc{Spheres: []sphDesc{{C0: [3]float64{0, 0, 10}, C1: [3]float64{0, 0, 10}, R: 2}, {C0: [3]float64{20, 0, 10}, C1: [3]float64{20, 0, 10}, R: 2}},
+				O: [3]float64{-1.5, 0, 0}, Dir: [3]float64{0, 0, 1}, Lo: 0, Hi: 1e6, Seed: seed, RawBox: true})
+		}
 	}
 	if *bvhMin { // the reproducer of fixes/c16-tri-hit-max-offset under four split-axis seeds
 		for seed := int64(1); seed <= 4; seed++ {
-			run.Add(bvhCase(bvhDesc{
+			addBvh(bvhDesc{
 				Verts: [][3]float64{{-4, -4, 5.5}, {4, -4, 5.5}, {0, 6, 5.5}, {-4, -4, 5}, {4, -4, 5}, {0, 6, 5}},
-				Idx:   []int{0, 1, 2, 3, 4, 5}, O: [3]float64{0, 0, 0}, Dir: [3]float64{0, 0, 1}, Lo: 1, Hi: 1e6, Seed: seed}))
+				Idx:   []int{0, 1, 2, 3, 4, 5}, O: [3]float64{0, 0, 0}, Dir: [3]float64{0, 0, 1}, Lo: 1, Hi: 1e6, Seed: seed})
 		}
 	}
 	r := hx.NewRng(run.Seed)
@@ -494,11 +715,12 @@ func main() {
 		if i%4 == 3 {
 			d := genBvh(r, run.Tier == "thorough")
 			if *bvhMin && r.Chance(1, 2) {
-				d.Lo = hx.Pick(r, []float64{0.001, 0.5, 1, 3})
-				run.Count("bvh:min!=0")
+				d.Lo = hx.Pick(r, []float64{0.001, 0.5, 1, 3, 3, -2.5, -40})
 			}
-			run.Count(fmt.Sprintf("bvh:tris<=%d", bucket(len(d.Idx)/3)))
-			run.Add(bvhCase(d))
+			if *rawSphere && len(d.Spheres) > 0 && r.Chance(1, 2) {
+				d.RawBox = true
+			}
+			addBvh(d)
 			continue
 		}
 		addOct(genSet(r, big))
